@@ -1074,3 +1074,46 @@ where
         None
     }
 }
+
+/// Differential-driver probe (see /verif/DESIGN.md, C17): the finality coordinator's wait predicate
+/// is evaluated while a silent holder (a stale or duplicate claim) has the candidate's lock.
+#[cfg(grevm_verif)]
+impl<DB> Scheduler<DB>
+where
+    DB: DatabaseRef + Send + Sync,
+    DB::Error: Clone + Send + Sync + 'static,
+{
+    /// Runs the real finality loop on this scheduler (which must hold at least one transaction
+    /// and must not have been executed), publishes transaction 0 as `Unconfirmed` the way
+    /// `validate` does, then notifies the finality coordinator while the lock of transaction 0
+    /// is held for `hold` by a thread that releases it without notifying. Returns the time
+    /// between the release and the moment the finality boundary passed transaction 0.
+    pub fn verif_finality_probe_busy_lock(&self, settle: Duration, hold: Duration) -> Duration {
+        self.scheduler_ctx.executed(0);
+        let _ = self.scheduler_ctx.next_validation_idx(1);
+        let waited = thread::scope(|scope| {
+            scope.spawn(|| self.run_finality_loop());
+            thread::sleep(settle);
+            {
+                let mut tx = self.tx_states[0].lock();
+                let ts = self.scheduler_ctx.logical_timestamp();
+                self.scheduler_ctx.unconfirmed(0, ts);
+                tx.status = TransactionStatus::Unconfirmed;
+            }
+            let claim = self.tx_states[0].lock();
+            self.finality_wait.notify();
+            thread::sleep(hold);
+            drop(claim);
+            let released = Instant::now();
+            while self.scheduler_ctx.finality_idx() < 1 &&
+                released.elapsed() < STALL_TIMEOUT + Duration::from_secs(4)
+            {
+                thread::sleep(Duration::from_millis(2));
+            }
+            let waited = released.elapsed();
+            self.cancel();
+            waited
+        });
+        waited
+    }
+}
